@@ -100,8 +100,20 @@ fn local_case(file: &Arc<Vec<u8>>, ranges: &[(u64, usize)], frag: FragPlan, pend
         let mut reader = IoReader::new(FragSource::new(file2.clone(), f2.clone(), p2.clone()));
         let chunks: Vec<ChunkOffset> = ranges2.iter().map(|&(o, s)| ChunkOffset::new(o, s)).collect();
         let budget = 10_000 + 200 * ranges2.iter().map(|r| r.1 as u64 + 4).sum::<u64>();
+        // What was done with the reader before must not matter: nothing, a read_at elsewhere,
+        // or an earlier stream that was dropped after its first item.
+        let history = (ranges2.len() + ranges2[0].1 + ranges2[0].0 as usize) % 3;
+        let flen = file2.len();
         let items = block_on_busy(
             async {
+                if history == 1 && flen >= 4 {
+                    let _ = reader.read_at((flen / 2) as u64, (flen / 4).max(1)).await;
+                }
+                if history == 2 && flen >= 8 {
+                    let mut st0 = reader.read_chunks(vec![ChunkOffset::new((flen / 3) as u64, 2), ChunkOffset::new((flen / 3) as u64 + 2, 3)]);
+                    let _ = st0.next().await;
+                    drop(st0);
+                }
                 let mut st = reader.read_chunks(chunks);
                 let mut items: Vec<Result<Vec<u8>, String>> = Vec::new();
                 while let Some(r) = st.next().await {
@@ -178,6 +190,10 @@ fn local_random_params(seed: u64, i: usize) -> (Arc<Vec<u8>>, Vec<(u64, usize)>,
         _ => RangeShape::Mixed,
     };
     let mut ranges = gen_ranges(&mut rng, flen, &shape, 8, (flen / 3).min(300).max(2));
+    if rng.chance(1, 5) {
+        // the very start of the file (no archive stores chunk data there, a library user may)
+        ranges[0].0 = 0;
+    }
     let mut past_eof = false;
     if rng.chance(1, 10) {
         let k = rng.usize_below(ranges.len());
@@ -204,10 +220,12 @@ fn local_engine(rep: &Report, seed: u64, tier: Tier) {
     let mut jobs: Vec<(Vec<(u64, usize)>, Vec<usize>, bool)> = Vec::new();
     for total in 1..=tier.pick(8, 10) {
         for split in 0..=total / 2 {
+            // every third shape starts at the very beginning of the file
+            let base: u64 = if (total + split) % 3 == 0 { 0 } else { 5 };
             let ranges: Vec<(u64, usize)> = if split == 0 {
-                vec![(5, total)]
+                vec![(base, total)]
             } else {
-                vec![(5, split), (5 + split as u64 + (total % 3) as u64, total - split)]
+                vec![(base, split), (base + split as u64 + (total % 3) as u64, total - split)]
             };
             for comp in compositions(total) {
                 jobs.push((ranges.clone(), comp.clone(), false));
